@@ -11,6 +11,7 @@ func allProps() []PropSpec {
 				{Func: "ZZ_C01_H4", Pkg: "pkg/protocol/http1", Quick: map[string]int{"K": 3, "FRAG": 3}, Thorough: map[string]int{"K": 4, "FRAG": 4}, Covers: []string{"reached-assert", "two-requests"}},
 				{Func: "ZZ_C01_BIG", Pkg: "pkg/protocol/http1", Covers: []string{"reached-assert"}, Unwind: 40000, MaxSteps: 8000000, Note: "body lengths 4095..4097 and 8191..8193, fixed and chunked, four fragmentations"},
 				{Func: "ZZ_C14_H1", Pkg: "pkg/protocol/http1", Quick: map[string]int{"L": 4, "C": 2, "S": 3, "R": 2, "C01": 1}, Thorough: map[string]int{"L": 6, "C": 2, "S": 6, "R": 3, "C01": 1}, Covers: []string{"reached-assert"}, MaxSteps: 4000000, Note: "streaming mode: shared with C14 (its pipelined-request-still-handled assertion is a C01 clause)"},
+				{Func: "ZZ_C14_H4", Pkg: "pkg/protocol/http1", Quick: map[string]int{"L": 3, "C": 2, "S": 3, "R": 2, "C01": 1}, Thorough: map[string]int{"L": 4, "C": 2, "S": 3, "R": 3, "C01": 1}, Covers: []string{"reached-assert", "sentinel-handled"}, MaxSteps: 4000000, Note: "streaming mode, two-fragment delivery with the cut at every position of the body: shared with C14"},
 			},
 			Assumptions: []string{"transport: the real standard.Conn over a harness net.Conn; netpoll is outside", "bodies are a few bytes; buffer-boundary sizes (4 KiB/8 KiB) are C13/C14's subject", "Content-Length spellings valid only with HTAB as OWS are in neither obligation (refusing them is safe)", "multipart pre-parsing disabled"},
 		},
@@ -97,6 +98,7 @@ func allProps() []PropSpec {
 				{Func: "ZZ_C14_H2", Pkg: "pkg/protocol/http1", Covers: []string{"reached-assert", "both-handled"}, Note: "pooled bodyStream reuse across two connections after a failed release (sync.Pool modelled LIFO)"},
 				{Func: "ZZ_C14_BIG", Pkg: "pkg/protocol/http1", Covers: []string{"reached-assert", "read-beyond-prefetch", "pipelined-request-handled"}, Unwind: 40000, MaxSteps: 8000000, Note: "8 KiB regime: bodies of 8193..8201 and 9000 bytes, read buffers 16 B .. 16 KiB"},
 				{Func: "ZZ_C14_H3", Pkg: "pkg/protocol/http1", Quick: map[string]int{"S": 3, "R": 3}, Thorough: map[string]int{"S": 5, "R": 4}, Covers: []string{"reached-assert", "connection-kept", "connection-closed-after-first", "ordinary-trailer-kept-the-connection"}, MaxSteps: 4000000, Note: "chunked body with ordinary / forbidden / malformed / symbolic trailer section: only the sentinel may follow"},
+				{Func: "ZZ_C14_H4", Pkg: "pkg/protocol/http1", Quick: map[string]int{"L": 4, "C": 2, "S": 3, "R": 3}, Thorough: map[string]int{"L": 6, "C": 2, "S": 5, "R": 4}, Covers: []string{"reached-assert", "stopped-before-the-cut", "sentinel-handled"}, MaxSteps: 4000000, Note: "two-fragment delivery, the cut at every position of the body region; the rest of the body arrives bundled with the pipelined request"},
 			},
 			Assumptions: []string{"transport: real standard.Conn over a harness net.Conn, delivered whole or byte-at-a-time; netpoll outside", "small bodies (<= 9 bytes) with small prefetch limits plus the 8 KiB regime (ZZ_C14_BIG) with concrete pattern bodies", "read-buffer sizes from {0,1,3,16}"},
 		},
@@ -149,6 +151,7 @@ func allProps() []PropSpec {
 			Harnesses: []HarnessSpec{
 				{Func: "ZZ_C04_H1", Pkg: "pkg/protocol/http1", Quick: map[string]int{"K": 1, "NSTATUS": 9, "L": 3}, Thorough: map[string]int{"K": 2, "NSTATUS": 4, "L": 2}, Covers: []string{"reached-assert", "bodiless", "with-body"}, MaxSteps: 4000000},
 				{Func: "ZZ_C04_BIG", Pkg: "pkg/protocol/http1", Covers: []string{"reached-assert"}, Unwind: 20000, MaxSteps: 8000000, Note: "8 KiB+ streamed body across copy-buffer boundaries (symbolic bytes at the boundaries)"},
+				{Func: "ZZ_C04_POOL", Pkg: "pkg/protocol/http1/resp", Covers: []string{"reached-assert", "writer-reused"}, Note: "pooled chunked body writer handed back through its finalizer path (release) and reused for the next response (sync.Pool modelled LIFO)"},
 			},
 			Assumptions: []string{"responses are produced by a handler inside the real Serve loop over the real standard.Conn and decoded by the strict reader in harness/pkg/protocol/http1/serve.go (not net/http)", "documented exclusion honoured: hijacked chunked writer on a response that may not have a body", "body sizes <= 3 bytes: the 4 KiB / MaxSmallFileSize flush thresholds are not exercised", "Date and Server headers disabled"},
 		},
